@@ -30,7 +30,7 @@ pub struct Report {
 
 impl Report {
     pub fn new() -> Self {
-        Report { max_samples: 3, max_distinct: 200_000, ..Default::default() }
+        Report { max_samples: 3, max_distinct: 20_000, ..Default::default() }
     }
     pub fn count(&mut self, k: &str, n: u64) {
         *self.counters.entry(k.to_string()).or_insert(0) += n;
